@@ -25,6 +25,15 @@ class DataTable:
         """short=True: some of the extra files hold fewer than 256 elements (the controller then answers addresses past the
         end with an error status)"""
         t = cls()
+
+        class _W:
+            """random words, one in six an edge value: an idle timer has PRE / ACC 0, a cleared file is all zeros, -1 and the sign bit
+            alone are what signedness mistakes turn on (a uniformly random word is 0 once in 65536)"""
+            @staticmethod
+            def getrandbits(_n):
+                return rng_.choice([0, 0, 0, 1, 0x7FFF, 0x8000, 0xFFFF]) if rng_.random() < 0.17 else rng_.getrandbits(16)
+        rng_ = rng
+        rng = _W
         t.files[0] = ("O", [rng.getrandbits(16) for _ in range(nelem * 4)])
         t.files[1] = ("I", [rng.getrandbits(16) for _ in range(nelem * 4)])
         t.files[2] = ("S", [rng.getrandbits(16) for _ in range(nelem)])
@@ -33,12 +42,13 @@ class DataTable:
         t.files[5] = ("C", [rng.getrandbits(16) for _ in range(nelem * 3)])
         t.files[7] = ("N", [rng.getrandbits(16) for _ in range(nelem)])
         t.files[8] = ("F", [rng.getrandbits(16) for _ in range(nelem * 2)])
+        rng = rng_
         extra = {"N": [9, 120, 254, 255], "B": [10, 13, 253], "F": [11, 200], "L": [12, 14], "T": [20], "C": [21]}
         for ty, nums in extra.items():
             for n in nums:
                 if n not in t.files:
                     ne = rng.choice([nelem, nelem, 100, 17, 3]) if short else nelem
-                    t.files[n] = (ty, [rng.getrandbits(16) for _ in range(ne * WORDS_PER_ELEMENT[ty])])
+                    t.files[n] = (ty, [_W.getrandbits(16) for _ in range(ne * WORDS_PER_ELEMENT[ty])])
         return t
 
     def snapshot(self):
